@@ -39,12 +39,9 @@ Range(s) == {s[i] : i \in DOMAIN s}
 \* positions (1-based) of the elements of kind X, ascending
 Pos(s, X) == {i \in DOMAIN s : s[i][1] = X}
 
-RECURSIVE SetToSortedSeq(_)
-SetToSortedSeq(S) == IF S = {} THEN <<>>
-                     ELSE LET m == CHOOSE x \in S : \A y \in S : x <= y IN <<m>> \o SetToSortedSeq(S \ {m})
-
 \* the view of kind X: sequence of <<0-based index, element>> in index order, each exactly once
-SelectKind(s, X) == LET p == SetToSortedSeq(Pos(s, X)) IN [j \in DOMAIN p |-> <<p[j] - 1, s[p[j]]>>]
+\* (SelectSeq is evaluated natively by TLC: no deep recursion on long lists)
+SelectKind(s, X) == SelectSeq([i \in DOMAIN s |-> <<i - 1, s[i]>>], LAMBDA p : p[2][1] = X)
 Everything(s) == [i \in DOMAIN s |-> <<i - 1, s[i]>>]
 
 AllOf(s, X) == \A i \in DOMAIN s : s[i][1] = X
@@ -63,11 +60,8 @@ Homogeneous(s) == \A i \in DOMAIN s : s[i][1] = s[1][1]
 InSortDomain(s) == s # <<>> /\ Sortable(s[1][1]) /\ Homogeneous(s)
 SortPanics(s) == s # <<>> /\ ~Sortable(s[1][1])
 
-RECURSIVE InsertSorted(_, _), SortVals(_)
-InsertSorted(s, x) == IF s = <<>> THEN <<x>>
-                      ELSE IF x[2] <= Head(s)[2] THEN <<x>> \o s
-                      ELSE <<Head(s)>> \o InsertSorted(Tail(s), x)
-SortVals(s) == IF s = <<>> THEN <<>> ELSE InsertSorted(SortVals(Tail(s)), Head(s))
+\* TLC's SortSeq (module TLC) is evaluated natively
+SortVals(s) == SortSeq(s, LAMBDA a, b : a[2] < b[2])
 
 IsSorted(s) == \A i \in 1..(Len(s) - 1) : s[i][2] <= s[i + 1][2]
 SameBag(a, b) == /\ Len(a) = Len(b)
@@ -83,15 +77,27 @@ NumIdx(s) == {i \in DOMAIN s : s[i][1] \in {"int", "float"}}
 IntIdx(s) == {i \in DOMAIN s : s[i][1] = "int"}
 
 IntVal(e) == e[2]
-RECURSIVE Sum4Over(_, _), IntSumOver(_, _), ProdOver(_, _)
-Sum4Over(s, I)   == IF I = {} THEN 0 ELSE LET i == CHOOSE x \in I : TRUE IN Num4(s[i]) + Sum4Over(s, I \ {i})
-IntSumOver(s, I) == IF I = {} THEN 0 ELSE LET i == CHOOSE x \in I : TRUE IN s[i][2] + IntSumOver(s, I \ {i})
+\* folds over the positions in I, as recursions over the index (linear in the length of the list)
+Min2(a, b) == IF a <= b THEN a ELSE b
+Max2(a, b) == IF a >= b THEN a ELSE b
+RECURSIVE FoldIdx(_, _, _, _, _)
+\* FoldIdx(s, I, i, f, acc): acc combined with f(s[j]) for every j <= i in I; f is selected by name
+Contribution(name, e) == CASE name = "sum4" -> Num4(e) [] name = "isum" -> e[2] [] name = "prod" -> e[2]
+                           [] name \in {"min4", "max4"} -> Num4(e) [] OTHER -> e[2]
+Combine(name, acc, x) == CASE name \in {"sum4", "isum"} -> acc + x [] name = "prod" -> acc * x
+                           [] name \in {"min4", "imin"} -> Min2(acc, x) [] OTHER -> Max2(acc, x)
+FoldIdx(s, I, i, name, acc) ==
+  IF i = 0 THEN acc
+  ELSE FoldIdx(s, I, i - 1, name, IF i \in I THEN Combine(name, acc, Contribution(name, s[i])) ELSE acc)
+Big == 1073741823   \* beyond every token value
+Sum4Over(s, I)   == FoldIdx(s, I, Len(s), "sum4", 0)
+IntSumOver(s, I) == FoldIdx(s, I, Len(s), "isum", 0)
 \* product of the raw token numbers (every float q/4 contributes q, every int v contributes v)
-ProdOver(s, I)   == IF I = {} THEN 1 ELSE LET i == CHOOSE x \in I : TRUE IN s[i][2] * ProdOver(s, I \ {i})
-Min4Over(s, I) == IF I = {} THEN 0 ELSE LET i == CHOOSE x \in I : \A y \in I : Num4(s[x]) <= Num4(s[y]) IN Num4(s[i])
-Max4Over(s, I) == IF I = {} THEN 0 ELSE LET i == CHOOSE x \in I : \A y \in I : Num4(s[x]) >= Num4(s[y]) IN Num4(s[i])
-IMinOver(s, I) == IF I = {} THEN 0 ELSE LET i == CHOOSE x \in I : \A y \in I : s[x][2] <= s[y][2] IN s[i][2]
-IMaxOver(s, I) == IF I = {} THEN 0 ELSE LET i == CHOOSE x \in I : \A y \in I : s[x][2] >= s[y][2] IN s[i][2]
+ProdOver(s, I)   == FoldIdx(s, I, Len(s), "prod", 1)
+Min4Over(s, I) == IF I = {} THEN 0 ELSE FoldIdx(s, I, Len(s), "min4", Big)
+Max4Over(s, I) == IF I = {} THEN 0 ELSE FoldIdx(s, I, Len(s), "max4", 0 - Big)
+IMinOver(s, I) == IF I = {} THEN 0 ELSE FoldIdx(s, I, Len(s), "imin", Big)
+IMaxOver(s, I) == IF I = {} THEN 0 ELSE FoldIdx(s, I, Len(s), "imax", 0 - Big)
 NFloats(s) == Cardinality({i \in DOMAIN s : s[i][1] = "float"})
 
 Aggregates(s) ==
